@@ -40,7 +40,7 @@ RandPost(x) ==
         hasAsrt == IF hasAmt THEN Coin(6, x) ELSE Coin(5, x)      \* an assertion may stand without an amount
     IN
     [ind |-> Pick({1, 2, 4, 4, 4, 8, 0}), st |-> Pick({"", "", "", "*", "!"}), kind |-> Pick({"real", "real", "real", "paren", "bracket"}),
-     acct |-> Pick(1..Len(Accounts)), gap |-> Pick({2, 2, 3, 6}),
+     acct |-> Pick(1..Len(Accounts)), gap |-> Pick({2, 2, 3, 6, 0}),
      amt |-> IF hasAmt THEN <<RandAmtIn(x, ValuesA, IF hasCost \/ hasAsrt THEN NoLower ELSE 0..Len(Commodities))>> ELSE <<>>,
      cost |-> IF hasCost THEN <<[total |-> Coin(2, x), a |-> [RandAmtIn(x + 1, ValuesA, IF hasAsrt THEN NoLower ELSE 0..Len(Commodities)) EXCEPT !.neg = FALSE, !.plus = FALSE]]>> ELSE <<>>,
      asrt |-> IF hasAsrt THEN <<[strict |-> Coin(3, x), a |-> [RandAmt(x + 2) EXCEPT !.plus = FALSE]]>> ELSE <<>>,
